@@ -31,8 +31,11 @@ class Escape:
 
 
 class Effects:
-    def __init__(self, prog: Program, res: Resolver):
+    def __init__(self, prog: Program, res: Resolver, partial_builtins: bool = False):
         self.prog, self.res = prog, res
+        # also count the builtins that raise on an empty argument when called without a fallback: next(it) -> StopIteration,
+        # max(xs) / min(xs) -> ValueError (syntactically recognisable; whether the argument can be empty is not decided)
+        self.partial_builtins = partial_builtins
         self._cache: dict[tuple[int, int], frozenset] = {}
         self._busy: set[int] = set()
 
@@ -110,6 +113,12 @@ class Effects:
                 elif isinstance(n, ast.Assert):
                     if not self._caught(pm, n, f, "AssertionError"):
                         out.add(Escape("AssertionError", f"{f.short}: {norm(n)[:90]}", (f.short,)))
+                elif self.partial_builtins and isinstance(n, ast.Call) and isinstance(n.func, ast.Name) and len(n.args) == 1 \
+                        and not n.keywords and n.func.id in ("next", "max", "min") \
+                        and not isinstance(n.args[0], (ast.List, ast.Tuple, ast.Set, ast.Dict, ast.Constant)):
+                    exc = "StopIteration" if n.func.id == "next" else "ValueError"
+                    if not self._caught(pm, n, f, exc):
+                        out.add(Escape(exc, f"{f.short}: {norm(n)[:90]} (no fallback for an empty argument)", (f.short,)))
                 elif isinstance(n, ast.Call) and depth > 0:
                     for callee in self.res.resolve_call(n, f, cha=False):
                         for esc in self.escapes(callee, depth - 1):
